@@ -333,7 +333,8 @@ PRIMS = {"u16": "PU16", "u32": "PU32", "u64": "PU64", "usize": "PU64", "i64": "P
 
 
 def q(s):
-    return '"' + s.replace('"', '""') + '"'
+    # an identifier of the model: characters of the name (i_ is evaluated away, see below)
+    return '(i_ "' + s.replace('"', '""') + '")'
 
 
 class Gen:
@@ -476,9 +477,11 @@ def cbor_schema():
              "From Stam Require Import Model.Cbor.",
              "Local Open Scope string_scope.",
              "",
-             "Definition extracted_root : string := %s." % q(root),
+             "(* identifiers are character lists; [Eval vm_compute] removes every [i_ \"...\"], so that no",
+             "   value of Coq's [string] type occurs in the definitions (they are extracted to OCaml) *)",
+             "Definition extracted_root : ident := Eval vm_compute in %s." % q(root),
              "",
-             "Definition extracted_schema : schema := ["]
+             "Definition extracted_schema : schema := Eval vm_compute in ["]
     ents = []
     for full, text, path in g.out:
         ents.append("  (* %s *)\n  (%s, %s)" % (path, q(full), text))
